@@ -1,6 +1,17 @@
+/-
+C20 – the s-expression reader: property theorems.
+
+Proved for EVERY input (any octet string, any start position inside it, length-delimited without
+terminator): no octet outside the input is read (`no_outside_read`), the reader terminates - the
+recursion over nested lists never runs out of its fuel of length + 1 (`terminates`), an error
+status never comes with a tree (`error_no_tree`), a success reports a position inside the input
+and behind the start (`success_forward`).  NOT proved (correspondence only): that the rendering of
+every tree parses back to that tree (`parse_render`), and leak freedom (observed by LeakSanitizer).
+-/
 import Ufw.Model.Sx
+import Ufw.Lemmas.Sx
 namespace Ufw.Props.C20
-open Ufw Ufw.Model.Sx
+open Ufw Ufw.Model.Sx Ufw.Lemmas.Sx
 /-- an error status never comes with a tree -/
 theorem error_no_tree (s : List Octet) (i : Nat) : (sx_parse s i).isError = true → (sx_parse s i).node = none := by
   simp only [sx_parse]
@@ -13,4 +24,65 @@ theorem error_no_tree (s : List Octet) (i : Nat) : (sx_parse s i).isError = true
   by_cases hr : r.isError = true
   · simp [hr]
   · simp only [hr, Bool.false_eq_true, ↓reduceIte] at h
+/-- shape of every answer of `sx_parse` on a start position inside the input -/
+private theorem parse_shape (s : List Octet) (i : Nat) (h : i ≤ s.length) :
+    (sx_parse s i).status ≠ .oob ∧ (sx_parse s i).status ≠ .diverge ∧
+    ((sx_parse s i).status = .success → i < (sx_parse s i).pos ∧ (sx_parse s i).pos ≤ s.length) := by
+  simp only [sx_parse]
+  have hts := token_shape s i h
+  generalize sx_parse_token s i = tok at hts
+  cases hts with
+  | atEnd => simp [Res.isError, Res.isEmptyList]
+  | atom t pos h1 h2 =>
+    by_cases hnil : t = .nil
+    · subst hnil; simp [Res.isError, Res.isEmptyList]
+    · simp [Res.isError, Res.isEmptyList, hnil]; omega
+  | openParen pos h1 h2 =>
+    have hl := list_shape s (s.length + 1) pos h2 (by omega)
+    have e2 : (Status.foundList == Status.success) = false := by decide
+    have e3 : (Status.foundList == Status.foundList) = true := by decide
+    simp only [e3, ↓reduceIte]
+    generalize sx_parse_list s (s.length + 1) pos = r at hl
+    obtain ⟨a1, a2, a3, a4, a5⟩ := hl
+    by_cases he : r.isError = true
+    · simp only [he, ↓reduceIte]
+      refine ⟨a1, a2, ?_⟩
+      intro hs
+      simp [Res.isError, hs] at he
+    · simp only [he, Bool.false_eq_true, ↓reduceIte]
+      exact ⟨a1, a2, fun hs => by have := a4 hs; omega⟩
+  | broken st n pos hb hn =>
+    have herr : (st != .success && st != .foundList) = true := by
+      rcases hb with h | h | h <;> simp [h]
+    have e1 : (st == Status.foundList) = false := by rcases hb with h | h | h <;> simp [h]
+    have e2 : (st == Status.success) = false := by rcases hb with h | h | h <;> simp [h]
+    simp only [Res.isError, Res.isEmptyList, e1, e2, Bool.false_eq_true, ↓reduceIte, Bool.false_and, false_and, herr]
+    rcases hb with h | h | h <;> simp [h]
+
+/-- no octet outside the given input is read: for every octet string and every start position -/
+theorem no_outside_read (s : List Octet) (i : Nat) (h : i ≤ s.length) : (sx_parse s i).status ≠ .oob :=
+  (parse_shape s i h).1
+
+/-- the reader terminates on every input: nesting never exhausts the fuel of length + 1 -/
+theorem terminates (s : List Octet) (i : Nat) (h : i ≤ s.length) : (sx_parse s i).status ≠ .diverge :=
+  (parse_shape s i h).2.1
+
+/-- a success reports a position behind the start and inside the input -/
+theorem success_forward (s : List Octet) (i : Nat) (h : i ≤ s.length) (hs : (sx_parse s i).status = .success) :
+    i < (sx_parse s i).pos ∧ (sx_parse s i).pos ≤ s.length :=
+  (parse_shape s i h).2.2 hs
+
+/-- the same two guarantees for the list reader with any sufficient fuel and any start -/
+theorem list_reader_safe (s : List Octet) (fuel i : Nat) (h : i ≤ s.length) (hf : s.length - i < fuel) :
+    (sx_parse_list s fuel i).status ≠ .oob ∧ (sx_parse_list s fuel i).status ≠ .diverge :=
+  ⟨(list_shape s fuel i h hf).noOob, (list_shape s fuel i h hf).noDiverge⟩
+
+/-! #### concrete instances (these are tests, labelled as such) -/
+
+-- "(a (1 #xFf) ())" parses to (a (1 255) ()) and reports position 15
+example : sx_parse (([40, 97, 32, 40, 49, 32, 35, 120, 70, 102, 41, 32, 40, 41, 41] : List Nat).map (BitVec.ofNat 8)) 0 =
+    Res.mk .success
+      (some (.cons (.sym [97#8]) (.cons (.cons (.int 1) (.cons (.int 255) .nil)) (.cons .nil .nil)))) 15 := by
+  decide +kernel
+
 end Ufw.Props.C20
